@@ -1390,7 +1390,8 @@ PROPS = {
         'assumes': [],
     },
     'C17': {
-        'run': run_c17, 'level': 'proof', 'trust': REGION_TRUST + ['determinism: every call is made twice on equal inputs and compared bytewise by the harness (observed, not proved, for the sweep)'],
+        'run': run_c17, 'level': 'proof', 'trust': REGION_TRUST + ['determinism: every call is made twice on equal inputs and compared bytewise by the harness (observed, not proved, for the sweep)',
+                                                                      'K3: the three sort orderings of the sweep (horzSegSort, the processIntersectList and reset closures) are translated from /repo/clipper_base.go on every run by harness/comparators.go (a go/ast expression translator: if/return/||/&&/comparisons/nil tests/cmp.Compare over field paths; compared objects abstract) into Gen/Comparators_gen.v; the translator is trusted, an untranslatable comparator breaks the theorems'],
         'rule': 'C01-style random inputs; per base input 5-6 respellings (path permutation, start rotation, vertex/closing-vertex duplication, reversal under the matching fill-rule change, subject/clip exchange, one of the 7 non-trivial lattice symmetries); distinct = distinct (input, variant)',
         'assumes': ['orientation-reversing lattice symmetries exchange Positive and Negative (winding numbers negate under reflection)'],
     },
